@@ -14,7 +14,11 @@ focus = ''
 if rnd:
     k = (ord(rnd[0]) - ord('a')) % len(mechs)
     m = mechs[k]
-    if rnd[0] >= 'd':
+    if rnd[0] >= 'e':
+        k = (ord(rnd[0]) - ord('a') + 2) % len(mechs)
+        m = mechs[k]
+        focus = '\n  Focus: put your change in or around this mechanism of the implementation: %s (%s). Prefer a fault at a boundary or in a rarely taken branch that looks equivalent to the main one: a limit value (0, 1, 255, 256, 32767, the last row/column/record, an empty string, file or program), an alternate entry point to the same mechanism (the Session API versus BASIC statements, direct mode versus a program line, the same file through another device or mode, another syntax/dialect option or video adapter), or an error path (the state that is left behind when an operation is refused or fails half-way).' % (m.get('name'), m.get('where'))
+    elif rnd[0] >= 'd':
         k = (ord(rnd[0]) - ord('a') + 1) % len(mechs)
         m = mechs[k]
         focus = '\n  Focus: put your change in or around this mechanism of the implementation: %s (%s). Prefer a fault that only shows through the INTERACTION of this mechanism with something else the interpreter does (error trapping and RESUME, garbage collection of strings, a second open file or device, a screen mode or width change, leftover state from a previous statement or a previous RUN, direct mode versus program mode, an unusual but legal spelling of the same statement) - something that exercising the mechanism alone from a fresh start would not reveal.' % (m.get('name'), m.get('where'))
